@@ -187,7 +187,7 @@ package cmd
 //@   requires r != nil
 //@   return [without_a_read_error_the_line_is_complete_however_long_it_is] err == nil ==> !isPrefix
 //@   loop 1
-//@     invariant [the_line_is_accumulated_in_storage_of_its_own_never_in_the_reader_s_buffer] arr(ln) == 0 || arr(ln) != arr(line)
+//@     invariant [the_line_is_accumulated_in_storage_allocated_by_this_call_never_in_the_reader_s_buffer] arr(ln) == 0 || fresh_arr(ln)
 
 //@ func cmd.pruneCmd.RunE
 //@   flag noframe
